@@ -23,6 +23,8 @@ def run_property(prop, tier, quiet=False):
     rep.assumptions = list(getattr(mod, 'ASSUMPTIONS', []))
     try:
         mod.run(rep, ix, tier)
+        from .rules import generic
+        generic.check(rep, ix)
         code = rep.finish(ix, quiet=quiet)
     except loader.AnalysisError as err:
         print(f'ANALYSIS-ERROR property={prop} {err}')
@@ -53,6 +55,8 @@ def main(argv=None):
         mod = importlib.import_module(f'tdstatic.rules.{a.prop}')
         rep = report.Report(a.prop, 'quick')
         mod.run(rep, ix, 'quick')
+        from .rules import generic
+        generic.check(rep, ix)
         hits = [o for o in rep.obls if (o.rule, o.site, o.construct) == (d['rule'], d['site'], d['construct'])]
         bad = [o for o in hits if not o.ok]
         for o in bad:
